@@ -4,6 +4,9 @@
 //!      std DefaultHasher, fed exactly as packet_hash.rs feeds it (&[u8] slices, then u16 ports).
 //!  T2: real WorkerPools driven by 1..8 dispatcher threads; outcomes returned by dispatch vs stats() vs the
 //!      results received; `\t!...` when the real counters break the law the model states for that pool.
+//!  T2/G: the same pools with the receiver of the results dropped in mid-use: a worker that next produces a result
+//!      exits, its queue is disconnected; every dispatch outcome (scripted calls and the probe calls that wait for the
+//!      exit) vs stats(), and the line of the scripted calls vs the model (exited worker = channel answers `full`).
 #![allow(dead_code)]
 #[path = "../../c15/src/frames.rs"]
 mod frames;
@@ -256,9 +259,119 @@ fn run_q(t: &[&str]) -> String {
     s
 }
 
+// ------------------------------------------------------------------ T2/G: result consumer gone
+fn parse_pk(pool: &str, n: usize, tok: &str) -> Result<Pk, String> {
+    let p: Vec<&str> = tok.split(':').collect();
+    let kind = p[0].chars().next().unwrap();
+    let id: u32 = p[2].parse().unwrap();
+    let frame = frame_of(kind, id);
+    let worker = if p[1] == "-" { None } else { Some(p[1].parse::<usize>().unwrap()) };
+    if real_worker(pool, n, &frame) != worker { return Err(format!("HASHMISMATCH {} real={:?}", tok, real_worker(pool, n, &frame))); }
+    Ok(Pk { kind, worker, id, frame })
+}
+
+/// how long the harness waits for an observable condition (results of phase A received, a worker's exit seen by
+/// dispatch) before it gives the case up; never a fixed sleep
+const WAIT: std::time::Duration = std::time::Duration::from_secs(30);
+
+fn gone_case<R>(pool_name: &str, pool: Arc<dyn PoolApi>, rx: std::sync::mpsc::Receiver<R>, n: usize, cap: usize, a: &[Pk], b: &[Pk]) -> String {
+    use std::time::{Duration, Instant};
+    let mut outs: Vec<(Option<usize>, bool)> = Vec::new();           // scripted calls: (worker, Queued?)
+    let mut probes: Vec<(usize, bool)> = Vec::new();                 // probe calls:    (worker, Queued?)
+    // ---- before `/`: consumer alive; every result is received before the receiver goes away
+    let mut want_a = 0usize;
+    for p in a { let q = pool.dispatch_q(p.frame.clone()); if q && yields(pool_name, p.kind) { want_a += 1; } outs.push((p.worker, q)); }
+    let t0 = Instant::now();
+    let mut res_a = 0usize;
+    while res_a < want_a { match rx.recv_timeout(WAIT.saturating_sub(t0.elapsed())) { Ok(_) => res_a += 1, Err(_) => break } }
+    while pool.stat().3.iter().sum::<usize>() > 0 && t0.elapsed() < WAIT { std::thread::sleep(Duration::from_micros(100)); }
+    res_a += rx.try_iter().count();
+    drop(rx);
+    // ---- after `/`: a Queued packet that yields a result makes its worker exit; wait until dispatch sees it
+    let mut gone = vec![false; n];
+    for p in b {
+        let q = pool.dispatch_q(p.frame.clone());
+        outs.push((p.worker, q));
+        if let (true, true, Some(w)) = (q, yields(pool_name, p.kind), p.worker) {
+            let t1 = Instant::now();
+            let mut pause = Duration::from_micros(20);
+            loop {
+                std::thread::sleep(pause);
+                pause = (pause * 2).min(Duration::from_millis(50));
+                let pq = pool.dispatch_q(p.frame.clone());
+                probes.push((w, pq));
+                if !pq { break; }
+                if t1.elapsed() > WAIT { pool.stop(); return format!("TIMEOUT worker {} still accepts packets {:?} after it had to send to the dropped receiver", w, WAIT); }
+            }
+            let qs = pool.stat().3;
+            if qs.get(w).copied().unwrap_or(0) >= cap { pool.stop(); return format!("INCONCLUSIVE queue {} filled up ({:?})", w, qs); }
+            gone[w] = true;
+        }
+    }
+    let (disp, drop, wd, _) = pool.stat();
+    pool.stop();
+    // ---- the laws over ALL dispatch calls (scripted and probes)
+    let calls = outs.len() + probes.len();
+    let queued = outs.iter().filter(|(_, q)| *q).count() + probes.iter().filter(|(_, q)| *q).count();
+    let dropped = calls - queued;
+    let discards = outs.iter().filter(|(w, _)| w.is_none()).count();
+    let mut bad: Vec<String> = Vec::new();
+    let want_disp = match pool_name { "tcp" => queued, "http" => calls, _ => calls - discards } as u64;
+    if disp != want_disp { bad.push(format!("total_dispatched={} but the law gives {}", disp, want_disp)); }
+    if drop != dropped as u64 { bad.push(format!("total_dropped={} but dispatch returned Dropped {} times ({} calls, {} Queued)", drop, dropped, calls, queued)); }
+    let mut wd_sum = 0u64;
+    for w in 0..n {
+        let d = outs.iter().filter(|(pw, q)| !*q && *pw == Some(w)).count() + probes.iter().filter(|(pw, q)| !*q && *pw == w).count();
+        wd_sum += wd.get(w).copied().unwrap_or(0);
+        if wd.get(w).copied() != Some(d as u64) { bad.push(format!("worker {} dropped={:?} but dispatch returned Dropped {} times for it", w, wd.get(w), d)); }
+    }
+    if wd_sum + discards as u64 != drop { bad.push(format!("per-worker dropped sum {} + {} discards differs from total_dropped {}", wd_sum, discards, drop)); }
+    for (i, (w, q)) in outs.iter().enumerate() { if w.is_none() && *q { bad.push(format!("packet {} has no worker but was reported Queued", i)); } }
+    if res_a != want_a { bad.push(format!("{} results received before the receiver was dropped, {} queued packets yield one", res_a, want_a)); }
+    // ---- the line of the scripted calls: counters minus what the probe calls account for
+    let pq = probes.iter().filter(|(_, q)| *q).count() as i64;
+    let pd = probes.len() as i64 - pq;
+    let disp_net = disp as i64 - if pool_name == "tcp" { pq } else { probes.len() as i64 };
+    let wd_net: Vec<String> = (0..n).map(|w| (wd.get(w).copied().unwrap_or(0) as i64 - probes.iter().filter(|(pw, q)| !*q && *pw == w).count() as i64).to_string()).collect();
+    let out: String = if outs.is_empty() { "-".into() } else { outs.iter().map(|(_, q)| if *q { 'Q' } else { 'D' }).collect() };
+    let mut s = format!("calls={} out={} disp={} drop={} wd={} resA={} gone={} law=ok", outs.len(), out, disp_net, drop as i64 - pd, wd_net.join(","), res_a,
+                        gone.iter().map(|g| if *g { '1' } else { '0' }).collect::<String>());
+    if !bad.is_empty() { s.push_str(&format!("\t!{} pool, result receiver dropped: {}", pool_name, bad.join("; "))); }
+    s
+}
+
+fn run_g(t: &[&str]) -> String {
+    let pool = t[1];
+    let n: usize = t[2].parse().unwrap();
+    let cap: usize = t[3].parse().unwrap();
+    let (mut a, mut b, mut after) = (Vec::new(), Vec::new(), false);
+    for tok in &t[4..] {
+        if *tok == "/" { after = true; continue; }
+        match parse_pk(pool, n, tok) { Ok(p) => if after { b.push(p) } else { a.push(p) }, Err(e) => return e }
+    }
+    if !after { return "BADCASE".into(); }
+    match pool {
+        "tcp" => {
+            let (tx, rx) = std::sync::mpsc::channel::<huginn_net_tcp::TcpAnalysisResult>();
+            let p: Arc<dyn PoolApi> = Arc::new(huginn_net_tcp::WorkerPool::new(n, cap, 4, 2, tx, None, 1000, None).unwrap());
+            gone_case(pool, p, rx, n, cap, &a, &b)
+        }
+        "http" => {
+            let (tx, rx) = std::sync::mpsc::channel::<huginn_net_http::HttpAnalysisResult>();
+            let p: Arc<huginn_net_http::WorkerPool> = huginn_net_http::WorkerPool::new(n, cap, 4, 2, tx, None, 1000, None).unwrap();
+            gone_case(pool, p, rx, n, cap, &a, &b)
+        }
+        _ => {
+            let (tx, rx) = std::sync::mpsc::channel::<huginn_net_tls::TlsClientOutput>();
+            let p: Arc<dyn PoolApi> = Arc::new(huginn_net_tls::WorkerPool::new(n, cap, 4, 2, tx, 1000, None).unwrap());
+            gone_case(pool, p, rx, n, cap, &a, &b)
+        }
+    }
+}
+
 fn run(line: &str) -> String {
     let t: Vec<&str> = line.split_whitespace().collect();
-    match t[0] { "H" => run_h(&t), "P" => run_p(&t), "Q" => run_q(&t), _ => "BADCASE".into() }
+    match t[0] { "H" => run_h(&t), "P" => run_p(&t), "Q" => run_q(&t), "G" => run_g(&t), _ => "BADCASE".into() }
 }
 
 // ------------------------------------------------------------------ generators
@@ -378,6 +491,54 @@ fn gen(r: &mut Rng, tier: &Tier, out: &mut Vec<String>) {
             let w = real_worker(pool, n, &frame_of(kind, id));
             format!("{}:{}:{}", kind, w.map(|x| x.to_string()).unwrap_or("-".into()), id) }).collect();
         out.push(format!("Q {} {} {} {} {} {}", pool, n, cap, threads, r.below(1 << 30), toks.join(" ")));
+    }
+    // ---- T2/G: the receiver of the results is dropped in mid-use (pool not shut down) ----
+    // a packet of `kind` that the real hash routes to worker `w` (fresh source address per call)
+    fn routed(pool: &str, n: usize, kind: char, w: usize, next_ip: &mut u32, j: &mut u32) -> String {
+        for _ in 0..100_000 {
+            let id = *next_ip * 64 + *j; *next_ip += 1;
+            if real_worker(pool, n, &frame_of(kind, id)) == Some(w) { *j += 1; return format!("{}:{}:{}", kind, w, id); }
+        }
+        panic!("no {} packet found for worker {} of {} ({})", kind, w, n, pool)
+    }
+    for pool in CRATES {
+        let y = if *pool == "tls" { 'h' } else { 's' };                 // yields a result in this pool
+        let quiet: &[char] = if *pool == "tls" { &['s'] } else { &['u', 't'] };     // routed, analysed, no result
+        // fixed histories, the same for every seed: per worker count, the receiver dropped at the start / after some
+        // traffic; one result-yielding packet per worker in turn, then k packets to the same and to the other workers
+        for n in [1usize, 2, 3, 4] { for pre in [0usize, 3] { for k in [1usize, 5] {
+            let (mut ip, mut j) = (1000u32 * n as u32, 0u32);
+            let mut toks: Vec<String> = Vec::new();
+            for i in 0..pre { toks.push(routed(pool, n, if i % 2 == 0 { y } else { quiet[0] }, i % n, &mut ip, &mut j)); }
+            toks.push("/".into());
+            for w in 0..n {
+                for v in 0..n { toks.push(routed(pool, n, quiet[v % quiet.len()], v, &mut ip, &mut j)); }   // all still as before
+                toks.push(routed(pool, n, y, w, &mut ip, &mut j));                                        // worker w exits
+                for i in 0..k { toks.push(routed(pool, n, if i % 2 == 0 { quiet[0] } else { y }, w, &mut ip, &mut j)); }
+                for v in 0..n { if v != w { toks.push(routed(pool, n, quiet[(v + k) % quiet.len()], v, &mut ip, &mut j)); } }
+                if *pool == "tls" { toks.push(format!("u:-:{}", ip * 64 + j)); ip += 1; j += 1; }                  // TLS discard, no worker
+            }
+            if j < 64 { out.push(format!("G {} {} {} {}", pool, n, 512, toks.join(" "))); }
+        }}}
+        // random histories: few sources, so that packets keep arriving for workers that have exited
+        let kinds: &[char] = if *pool == "tls" { &['h', 'h', 's', 'u', 't', 'g'] } else { &['s', 's', 'u', 'u', 't', 'g'] };
+        for _ in 0..tier.scale(40, 400) {
+            let n = *r.pick(&[1usize, 2, 3, 4, 8]);
+            let cap = *r.pick(&[512usize, 1024]);
+            let (na, nb) = (r.below(8) as usize, r.range(2, 40) as usize);
+            let nsrc = r.range(1, 6) as u32;
+            let base = r.below(1 << 14) as u32;
+            let mut toks: Vec<String> = Vec::new();
+            for j in 0..na + nb {
+                if j == na { toks.push("/".into()); }
+                let kind = *r.pick(kinds);
+                // http/tls route by the whole flow: few port indexes as well, so that workers are hit repeatedly
+                let id = (base + r.below(nsrc as u64) as u32) * 64 + j as u32;
+                let w = real_worker(pool, n, &frame_of(kind, id));
+                toks.push(format!("{}:{}:{}", kind, w.map(|x| x.to_string()).unwrap_or("-".into()), id));
+            }
+            out.push(format!("G {} {} {} {}", pool, n, cap, toks.join(" ")));
+        }
     }
 }
 
